@@ -194,6 +194,11 @@ func init() {
 		x, y := a[0].(Str), a[1].(Str)
 		return tc.Ite(ex.strEq(x, y), tc.BV(0, 64), tc.Ite(ex.strLess(x, y, false), tc.BV(^uint64(0), 64), tc.BV(1, 64)))
 	})
+	reg("internal/bytealg.CompareString", func(ex *Exec, fn *ssa.Function, a []Value) Value {
+		tc := ex.tc
+		x, y := a[0].(Str), a[1].(Str)
+		return tc.Ite(ex.strEq(x, y), tc.BV(0, 64), tc.Ite(ex.strLess(x, y, false), tc.BV(^uint64(0), 64), tc.BV(1, 64)))
+	})
 	reg("strings.EqualFold", func(ex *Exec, fn *ssa.Function, a []Value) Value {
 		return ex.strEqualFoldASCII(a[0].(Str), a[1].(Str))
 	})
